@@ -110,8 +110,8 @@ func c04core(r *simkit.Run, minSources int, forceFine bool) {
 			req.Header.Set("X-Bad-Source", "1")
 		}
 		if ins.panic {
-			q.panics = true
-			panic("handler abort")
+			q.panics = !ins.goexit()
+			ins.leave()
 		}
 		w.WriteHeader(ins.status)
 		_, _ = w.Write([]byte("ok"))
@@ -207,7 +207,7 @@ func c04core(r *simkit.Run, minSources int, forceFine bool) {
 	finish := func(q *c04req, ins instr) {
 		sim.Note("finish", int64(q.id), b2i(ins.panic), int64(ins.status))
 		if ins.panic {
-			r.Fault("handler-panic")
+			r.Fault("handler-" + leaveStyles[ins.style])
 		}
 		sim.Unpark(q.task, ins)
 	}
@@ -285,6 +285,7 @@ func c04core(r *simkit.Run, minSources int, forceFine bool) {
 			ins := instr{status: rapid.SampledFrom([]int{200, 201, 404, 500, 503}).Draw(rt, "status"), rewrite: rapid.SampledFrom([]int{0, 0, 0, 1, 2, 3}).Draw(rt, "handler-rewrites-source")}
 			if rapid.IntRange(0, 3).Draw(rt, "abort") == 0 {
 				ins.panic = true
+				drawLeave(rt, &ins)
 			}
 			finish(q, ins)
 			if !fine {
@@ -314,6 +315,7 @@ func c04core(r *simkit.Run, minSources int, forceFine bool) {
 			break
 		}
 		ins := instr{status: 200, panic: rapid.IntRange(0, 3).Draw(rt, "drain-abort") == 0}
+		drawLeave(rt, &ins)
 		finish(pk[0], ins)
 	}
 	for _, q := range reqs {
